@@ -230,7 +230,33 @@ def sum_mono_proof():
     ]
 
 
+def positive(s):
+    j = z3.Int("j!ps")
+    return z3.ForAll([j], z3.Implies(z3.And(0 <= j, j < S.f_len(s)), S.f_at(s, j) >= 1), patterns=[S.f_at(s, j)])
+
+
+def strict_prefix(s):
+    """positive entries => prefix sums are strictly increasing"""
+    i, k = z3.Ints("i!sp k!sp")
+    return z3.Implies(
+        positive(s),
+        z3.ForAll([i, k], z3.Implies(z3.And(0 <= i, i < k, k <= S.f_len(s)), S.f_prefix(s, i) < S.f_prefix(s, k)),
+                  patterns=[z3.MultiPattern(S.f_prefix(s, i), S.f_prefix(s, k))]))
+
+
+def strict_prefix_proof():
+    s = z3.Const("s!l", S.SeqSort)
+    i, k = z3.Ints("i!l k!l")
+    hyp = [positive(s), 0 <= i, i <= k, k < S.f_len(s)]
+    # induction on k from i+1: base P(i, i+1); step P(i,k) => P(i,k+1)
+    return [
+        ("lemma-base", "strict_prefix", [positive(s), 0 <= i, i < S.f_len(s)], S.f_prefix(s, i) < S.f_prefix(s, i + 1)),
+        ("lemma-step", "strict_prefix", hyp + [i < k, S.f_prefix(s, i) < S.f_prefix(s, k)], S.f_prefix(s, i) < S.f_prefix(s, k + 1)),
+    ]
+
+
 LEMMAS = {
+    "strict_prefix": (strict_prefix, strict_prefix_proof),
     "sum_mono": (sum_mono, sum_mono_proof),
     "ceil_identity": (ceil_identity, ceil_identity_proof),
     "div_neg": (div_neg, div_neg_proof),
